@@ -91,7 +91,10 @@ def run_case(case, drv):
         M = drv.call("cfg.transform", G=g, kind=kind)
         res.corr += 1
         if pyname == "to_normal_form" and M is not None:
-            diff = G.same(G.canon_cnf_names(r, g["vars"]), G.canon_cnf_names(M, g["vars"]), ("start", "prods"))
+            # names the fresh binarisation variables had to avoid: the variables of the cleaned grammar
+            base = drv.call("cfg.transform", G=g, kind="cnfBase")
+            keep = base["vars"] if base is not None else g["vars"]
+            diff = G.same(G.canon_cnf_names(r, keep), G.canon_cnf_names(M, keep), ("start", "prods"))
         else:
             diff = G.same(r, M, ("start", "prods")) if M is not None else ["model-fuel"]
         agrees = not diff
